@@ -327,7 +327,7 @@ class ValueLessThan(Validator):
         self.boundary = boundary
 
     def validate(self, element, state):
-        if not element.value < self.boundary:
+        if element.value is None or not element.value < self.boundary:
             return self.note_error(element, state, "failure")
         return True
 
@@ -365,7 +365,7 @@ class ValueAtMost(Validator):
         self.maximum = maximum
 
     def validate(self, element, state):
-        if not element.value <= self.maximum:
+        if element.value is None or not element.value <= self.maximum:
             return self.note_error(element, state, "failure")
         return True
 
@@ -403,7 +403,7 @@ class ValueGreaterThan(Validator):
         self.boundary = boundary
 
     def validate(self, element, state):
-        if not element.value > self.boundary:
+        if element.value is None or not element.value > self.boundary:
             return self.note_error(element, state, "failure")
         return True
 
@@ -441,7 +441,7 @@ class ValueAtLeast(Validator):
         self.minimum = minimum
 
     def validate(self, element, state):
-        if not element.value >= self.minimum:
+        if element.value is None or not element.value >= self.minimum:
             return self.note_error(element, state, "failure")
         return True
 
@@ -506,10 +506,14 @@ class ValueBetween(Validator):
 
     def validate(self, element, state):
         if self.inclusive:
-            if not self.minimum <= element.value <= self.maximum:
+            if element.value is None or (
+                not self.minimum <= element.value <= self.maximum
+            ):
                 return self.note_error(element, state, "failure_inclusive")
         else:
-            if not self.minimum < element.value < self.maximum:
+            if element.value is None or (
+                not self.minimum < element.value < self.maximum
+            ):
                 return self.note_error(element, state, "failure_exclusive")
         return True
 
